@@ -8,7 +8,7 @@ verus! {
 //@include prelude/replay.rs
 //@include prelude/paths.rs
 //@pure get
-//@world meta_keyspace.get_highest_seqno tree.insert tree.remove tree.remove_weak tree.clear keyspaces.get tree.get_highest_seqno inner.get_highest_seqno seqno.fetch_max seqno.get keyspace_id_counter.fetch_max
+//@world meta_keyspace.get_highest_seqno tree.insert tree.remove tree.remove_weak tree.clear keyspaces.get meta_keyspace.get_highest_seqno tree.get_highest_seqno seqno.fetch_max seqno.get keyspace_id_counter.fetch_max
 
 //@extract src/db.rs :: Database :: recover as=replay_active world desugar_for_plain=0 desugar_for=1,2 props=C02+C03+C04+C12+C01
 //@anchor for batch in reader
@@ -65,12 +65,6 @@ verus! {
     proof { assert(all_ids_below(reader.emits@, reader.emits@.len() as int, w.next_ks_id)); } // [C12:P-ID-counter-above-every-journaled-id]
 //@end
 
-//@extract src/meta_keyspace.rs :: MetaKeyspace :: get_highest_seqno world props=C11
-//@contract
-    requires self.inner.id@ == 0, old(w).trees.dom().contains(0),
-    ensures *final(w) == *old(w), r == highest(old(w).trees[0]), // [C11:meta-high-water-mark-covers-tables-and-memtables]
-        r is Some ==> r->Some_0 < u64::MAX,
-//@end
 
 //@extract src/db.rs :: Database :: recover as=restore_seqno world optmap props=C11+C02+C06
 //@anchor write_buffer_size.allocate(size)
